@@ -9,10 +9,16 @@ CONSTANTS
   UseLate = TRUE
   UseTtl = FALSE
   UseInvoice = FALSE
+  UseAccounts = FALSE
+  UseMineTo = FALSE
+  UseCancelBySlate = FALSE
+  MaxAdv = 1
+  UseAdv = FALSE
 SPECIFICATION Spec
 INVARIANT TypeOK
 INVARIANT Inv_Exclusive
 PROPERTY Prop_Replay
+PROPERTY Prop_SelectAvoidsReserved
 PROPERTY EmitEdges
 CONSTRAINT Bound
 VIEW View
